@@ -674,6 +674,27 @@ M("r4b-local-cursor-peek-benign", ["C11", "C12"], "benign",
   [("sgramm.y", "\t      while ((c = *curr_ch++) != '\\0' && isdigit (c))\n\t\tyylval.num = yylval.num * 10 + (c - '0');\n\t      curr_ch--;",
     "\t      {\n\t\tconst char *next = curr_ch;\n\n\t\twhile (*next != '\\0' && isdigit (*next))\n\t\t  {\n\t\t    c = *next;\n\t\t    next += 1;\n\t\t    yylval.num = 10 * yylval.num + (c - '0');\n\t\t  }\n\t\tcurr_ch = next;\n\t      }")])
 
+# ---- ninth wave rules --------------------------------------------------------------------------------
+M("r21-bounds-of-another-core", ["C12", "C02", "C01"], "break",
+  [("yaep.c", "\t\t\t - check_set->dists[check_set_core->parent_indexes\n\t\t\t\t\t    [check_sit_ind]]);", "\t\t\t - check_set->dists[set_core->parent_indexes\n\t\t\t\t\t    [check_sit_ind]]);")], "make_parse/parent_indexes")
+M("r24-reserve-empty-through-probe-position", ["C19", "C16"], "break",
+  [("hashtab.c", "\t\t  entry_ptr = first_deleted_entry_ptr;\n\t\t  *entry_ptr = EMPTY_ENTRY;", "\t\t  *entry_ptr = EMPTY_ENTRY;\n\t\t  entry_ptr = first_deleted_entry_ptr;"),
+   ("hashtab.cpp", "\t\t  entry_ptr = first_deleted_entry_ptr;\n\t\t  *entry_ptr = EMPTY_ENTRY;", "\t\t  *entry_ptr = EMPTY_ENTRY;\n\t\t  entry_ptr = first_deleted_entry_ptr;")],
+  "empty-mark-through-deleted-entry")
+M("r24-first-length-updated-on-replacement", ["C19", "C16"], "break",
+  [("objstack.c", "      previous_segment = os->os_current_segment->os_previous_segment;\n      yaep_free (os->os_alloc, os->os_current_segment);", "      previous_segment = os->os_current_segment->os_previous_segment;\n      os->initial_segment_length = segment_length;\n      yaep_free (os->os_alloc, os->os_current_segment);")],
+  "_OS_expand_memory/initial_segment_length")
+M("r16-saved-token-numbers-shifted", ["C12"], "break",
+  [("yaep.c", "\t\t     &pl_tok_nums[last_original_pl_el + 1],", "\t\t     &pl_tok_nums[last_original_pl_el],")], "token-numbers-of-the-saved-sets")
+M("r27-set-stored-unreserved", ["C18"], "break",
+  [("yaep.c", "  entry = find_hash_table_entry (set_tab, new_set, TRUE);", "  entry = find_hash_table_entry (set_tab, new_set, FALSE);")], "set_insert/set_tab")
+M("r24-walk-frees-member", ["C19", "C16"], "break",
+  [("objstack.cpp", "      yaep_free (os_alloc, current_segment);\n      current_segment = previous_segment;", "      yaep_free (os_alloc, os_current_segment);\n      current_segment = previous_segment;")], "release-in-walk")
+M("r14-cxx-slot-address-before-reserve", ["C16"], "break",
+  [("yaep.c", "  vlo_t **vlo_ptr;\n\n  if ((unsigned) vlo_array_len >= vlo_array->length () / sizeof (vlo_t *))\n    {\n      vlo_array->expand (sizeof (vlo_t *));\n      vlo_array->shorten (sizeof (vlo_t *));\n      vlo_ptr = &((vlo_t **) vlo_array->begin ())[vlo_array_len];",
+    "  vlo_t **vlo_ptr;\n\n  vlo_ptr = &((vlo_t **) vlo_array->begin ())[vlo_array_len];\n  if ((unsigned) vlo_array_len >= vlo_array->length () / sizeof (vlo_t *))\n    {\n      vlo_array->expand (sizeof (vlo_t *));\n      vlo_array->shorten (sizeof (vlo_t *));")],
+  "vlo_array_expand/")
+
 # ---- R8 / R2f (C16, C19) ----------------------------------------------------------------------------
 M("r8-revert-F14", ["C19", "C16"], "break", [("hashtab.cpp", "		  entry_ptr = first_deleted_entry_ptr;\n		  *entry_ptr = EMPTY_ENTRY;", "		  entry_ptr = first_deleted_entry_ptr;\n		  *entry_ptr = DELETED_ENTRY;")], "find_hash_table_entry~")
 M("r2f-revert-F15", ["C19", "C16"], "break", [("hashtab.cpp", "  ::operator delete (new_htab);", "  yaep_free (new_htab->alloc, new_htab);")], "expand_hash_table/new")
